@@ -158,7 +158,7 @@ def run(tier, seed):
         if canon[key]["outcome"].get("phase") == "build" or canon[key]["outcome"]["r"] == "ScenarioError":
             continue
         cs, cr = canon_of(canon[key]["item"])
-        items.append({"canon": cs, "canon_r": cr, "ev": r["item"]["ev"]})
+        items.append({"canon": cs, "canon_r": cr, "compare": cr == "ok", "ev": r["item"]["ev"]})
         owners.append((c, r, canon[key]))
     viols, states, trans = judge_det(items)
     # reference-semantics clauses of every involved run (attribution to known findings)
